@@ -281,9 +281,6 @@ def has(e, pred):
 def features(e):
     return {
         "neg_scale": has(e, lambda n: n["t"] == "scaled" and n["c"] < 0),
-        "loss_over_noprox": has(e, lambda n: n["t"] == "loss" and cls_of(n) == "identity" and n["f"] is not None
-                                and not model_prox_defined(n["f"])),
-        "loss_over_noeval": has(e, lambda n: n["t"] == "loss" and n["f"] is not None and not model_eval_defined(n["f"])),
         # Loss(y, f=None): documented as abstract ("__call__ and prox must be defined in a derived class")
         "loss_none": has(e, lambda n: n["t"] == "loss" and n["f"] is None),
         "defective_base": has(e, lambda n: n["t"] == "base" and n["name"] in ("L0Norm", "L2BallIndicator")),
@@ -304,7 +301,24 @@ def model_prox_defined(e):
     if t == "sep":
         return all(model_prox_defined(x) for x in e["es"])
     if t == "loss":
-        return cls_of(e) == "identity" and e["f"] is not None and model_prox_defined(e["f"])
+        # Loss.prox raises unless has_prox (= f is not None and f.has_prox and A is an Identity)
+        return cls_of(e) == "identity" and e["f"] is not None and model_has_prox(e["f"]) \
+            and model_prox_defined(e["f"])
+    return cls_of(e) in ("identity", "scaledid", "diag", "matrix")
+
+
+def model_has_prox(e):
+    t = e["t"]
+    if t == "base":
+        return e["name"] != "noprox"
+    if t == "scaled":
+        return model_has_prox(e["e"])
+    if t == "sum":
+        return False
+    if t == "sep":
+        return all(model_has_prox(x) for x in e["es"])
+    if t == "loss":
+        return cls_of(e) == "identity" and e["f"] is not None and model_has_prox(e["f"])
     return cls_of(e) in ("identity", "scaledid", "diag", "matrix")
 
 
@@ -586,7 +600,7 @@ def run(ctx: Ctx):
         ctx.proofs()
         try:
             coq_make(["Findings/C08_flags.vo"])
-            ctx.notes.append("Findings/C08_flags.v (flag logic not truthful without the well-formedness hypotheses) compiles")
+            ctx.notes.append("Findings/C08_flags.v (has_prox not truthful for negative scales) compiles")
         except Broken as b:
             ctx.notes.append("finding no longer reproduces in Coq: " + b.what)
     ctx.trusted += ["base functionals enter the calculus theorems through their C02 correctness (basefun.b_ok)",
